@@ -2,7 +2,6 @@ package sample
 
 import (
 	"math/rand"
-	"time"
 
 	dynsampler "github.com/honeycombio/dynsampler-go"
 
@@ -23,7 +22,7 @@ func createDynForEMAThroughputSampler(c *config.EMAThroughputSamplerConfig) *dyn
 	dynsamplerInstance := &dynsampler.EMAThroughput{
 		GoalThroughputPerSec: c.GoalThroughputPerSec / clusterSize,
 		InitialSampleRate:    c.InitialSampleRate,
-		AdjustmentInterval:   time.Duration(c.AdjustmentInterval),
+		AdjustmentInterval:   dynsamplerInterval(c.AdjustmentInterval),
 		Weight:               c.Weight,
 		AgeOutValue:          c.AgeOutValue,
 		BurstDetectionDelay:  c.BurstDetectionDelay,
